@@ -57,7 +57,8 @@ pub fn body(class: u8, witness: bool) {
         is_tty
     };
     let exp_write = if tty_only { is_tty } else { true };
-    let known_class = tty_only && colour_decided && exp_colour != is_tty;
+    // the recorded finding: do_write follows the colour decision instead of terminal detection
+    let known_class = tty_only && exp_colour != is_tty;
     match class {
         1 => sym::assume(known_class),
         2 => sym::assume(!known_class),
